@@ -31,6 +31,118 @@ pub enum Base {
 	Spki(KeySpec),
 	Crl(CrlCase),
 	Random(Hex),
+	/// a CA certificate with structurally valid but unusual field contents (structure-aware fuzzing)
+	OddCa(OddCa),
+}
+
+/// Field contents a generic DER parser accepts but rcgen's converters may not expect.
+#[derive(Clone, Debug, Serialize, Deserialize, PartialEq, Eq, Hash)]
+pub struct OddCa {
+	pub key: KeySpec,
+	/// lengths of iPAddress values in permitted / excluded subtrees
+	pub nc_ip_lens: Vec<u8>,
+	pub nc_on_excluded: bool,
+	/// lengths of iPAddress values in the SAN
+	pub san_ip_lens: Vec<u8>,
+	/// content octets of the pathLenConstraint INTEGER (empty = absent)
+	pub path_len: Hex,
+	/// content octets of the keyUsage BIT STRING incl. the unused-bits octet
+	pub key_usage: Hex,
+	/// (universal tag, content) of subject attribute values
+	pub subject_values: Vec<(u8, Hex)>,
+	/// universal tag and content of an otherName value
+	pub other_name: Option<(u8, Hex)>,
+	pub serial: Hex,
+	pub eku_arcs: Vec<u64>,
+	pub fill: u8,
+}
+
+fn odd_ca() -> BoxedStrategy<OddCa> {
+	let lens = || proptest::collection::vec(prop_oneof![3 => 0u8..40, 1 => prop::sample::select(vec![4u8, 8, 9, 16, 31, 32, 33])], 0..3);
+	(
+		(gen::cheap_key(), lens(), any::<bool>(), lens(), proptest::collection::vec(any::<u8>(), 0..10), proptest::collection::vec(any::<u8>(), 0..5)),
+		(
+			proptest::collection::vec((prop::sample::select(vec![12u8, 19, 22, 20, 30, 28, 18, 26, 4, 2]), proptest::collection::vec(any::<u8>(), 0..9)), 0..4),
+			prop::option::of((prop::sample::select(vec![12u8, 22, 4, 2, 5, 48]), proptest::collection::vec(any::<u8>(), 0..8))),
+			proptest::collection::vec(any::<u8>(), 0..24),
+			proptest::collection::vec(any::<u64>(), 0..4),
+			any::<u8>(),
+		),
+	)
+		.prop_map(|((key, nc_ip_lens, nc_on_excluded, san_ip_lens, path_len, key_usage), (sv, other_name, serial, eku_arcs, fill))| OddCa {
+			key,
+			nc_ip_lens,
+			nc_on_excluded,
+			san_ip_lens,
+			path_len: Hex(path_len),
+			key_usage: Hex(key_usage),
+			subject_values: sv.into_iter().map(|(t, c)| (t, Hex(c))).collect(),
+			other_name: other_name.map(|(t, c)| (t, Hex(c))),
+			serial: Hex(serial),
+			eku_arcs,
+			fill,
+		})
+		.boxed()
+}
+
+pub fn forge_odd_ca(o: &OddCa) -> Result<Vec<u8>, String> {
+	use crate::der::{enc_oid, enc_seq, enc_tlv};
+	use crate::forge::*;
+	use crate::x509::*;
+	let mut exts = Vec::new();
+	// basic constraints with arbitrary pathLen octets
+	let mut bc = vec![enc_bool(true)];
+	if !o.path_len.0.is_empty() {
+		bc.push(enc_tlv(0x02, &o.path_len.0));
+	}
+	exts.push(enc_ext(OID_BC, true, &enc_seq(&bc)));
+	if !o.key_usage.0.is_empty() {
+		let mut ku = o.key_usage.0.clone();
+		ku[0] %= 8;
+		exts.push(enc_ext(OID_KU, true, &enc_tlv(0x03, &ku)));
+	}
+	if !o.nc_ip_lens.is_empty() {
+		let subtrees: Vec<u8> = o.nc_ip_lens.iter().map(|l| enc_seq(&[enc_tlv(0x87, &vec![o.fill; *l as usize])])).collect::<Vec<_>>().concat();
+		let part = enc_tlv(if o.nc_on_excluded { 0xa1 } else { 0xa0 }, &subtrees);
+		exts.push(enc_ext(OID_NC, true, &enc_seq(&[part])));
+	}
+	let mut sans: Vec<Vec<u8>> = o.san_ip_lens.iter().map(|l| enc_tlv(0x87, &vec![o.fill; *l as usize])).collect();
+	if let Some((tag, content)) = &o.other_name {
+		let value = enc_tlv(if *tag == 48 { 0x30 } else { *tag }, &content.0);
+		sans.push(enc_tlv(0xa0, &[enc_oid(&[1, 3, 6, 1, 4, 1, 311, 20, 2, 3]), enc_tlv(0xa0, &value)].concat()));
+	}
+	if !sans.is_empty() {
+		exts.push(enc_ext(OID_SAN, false, &enc_seq(&sans)));
+	}
+	if !o.eku_arcs.is_empty() {
+		let mut arcs = vec![1u64, 3];
+		arcs.extend(&o.eku_arcs);
+		exts.push(enc_ext(OID_EKU, false, &enc_seq(&[enc_oid(&arcs), enc_oid(&[1, 3, 6, 1, 5, 5, 7, 3, 1])])));
+	}
+	exts.push(enc_ext(OID_SKI, false, &enc_octets(&[o.fill; 20])));
+	// subject with arbitrary value tags / contents
+	let types: [&[u64]; 4] = [&[2, 5, 4, 3], &[2, 5, 4, 10], &[2, 5, 4, 6], &[1, 2, 840, 113549, 1, 9, 1]];
+	let rdns: Vec<Vec<u8>> = o
+		.subject_values
+		.iter()
+		.enumerate()
+		.map(|(i, (tag, content))| enc_tlv(0x31, &enc_seq(&[enc_oid(types[i % 4]), enc_tlv(*tag, &content.0)])))
+		.collect();
+	let name_der = enc_seq(&rdns);
+	let fx = keys::fixture(&o.key);
+	let tbs = enc_seq(&[
+		enc_tlv(0xa0, &crate::der::enc_uint(2)),
+		enc_uint_bytes(&o.serial.0),
+		sig_alg_der(o.key.alg, FDigest::Sha256),
+		name_der.clone(),
+		enc_seq(&[enc_time(1_000_000_000), enc_time(2_000_000_000)]),
+		name_der,
+		fx.spki.clone(),
+		enc_tlv(0xa3, &enc_seq(&exts)),
+	]);
+	let digest = if o.key.alg == KeyAlg::Ed25519 { None } else { Some(FDigest::Sha256.md()) };
+	let sig = keys::openssl_sign(&fx.pkey, digest, &tbs)?;
+	Ok(enc_seq(&[tbs, sig_alg_der(o.key.alg, FDigest::Sha256), enc_bits(&sig, 0)]))
 }
 
 #[derive(Clone, Debug, Serialize, Deserialize, PartialEq, Eq, Hash)]
@@ -59,6 +171,7 @@ fn base_bytes(b: &Base) -> Result<Vec<u8>, String> {
 		Base::Spki(k) => keys::fixture(k).spki.clone(),
 		Base::Crl(c) => build_crl(c)?.map_err(|e| e.to_string())?.crl.der().to_vec(),
 		Base::Random(h) => h.0.clone(),
+		Base::OddCa(o) => forge_odd_ca(o)?,
 	})
 }
 
@@ -161,6 +274,7 @@ pub fn check_bytes(c: &BytesCase, info: &mut CaseInfo) -> Result<(), String> {
 		Base::Spki(_) => "spki",
 		Base::Crl(_) => "crl",
 		Base::Random(_) => "random",
+		Base::OddCa(_) => "odd-ca",
 	}));
 	let mut bytes = base.clone();
 	let n = bytes.len();
@@ -210,6 +324,7 @@ fn bytes_case() -> BoxedStrategy<BytesCase> {
 		1 => gen::key_spec().prop_map(Base::Spki),
 		1 => crl_case(false, true).prop_map(Base::Crl),
 		1 => proptest::collection::vec(any::<u8>(), 0..200).prop_map(|b| Base::Random(Hex(b))),
+		4 => odd_ca().prop_map(Base::OddCa),
 	];
 	(
 		base,
